@@ -123,6 +123,12 @@ def cases(tier, seed, prep=None):
                                 "accept": False, "answer": ans, "pre": ["absent", "dir", "file"][k % 3],
                                 "members": pick_members(rng) if kind == "directory" else []})
                     k += 1
+    # the configuration finds its working directory itself, with a stale $PWD in the environment
+    for i in range(30 if tier == "quick" else 800):
+        kind = "file" if i % 2 == 0 else "directory"
+        out.append({"seed": seed * 1000003 + 595000 + i, "offer": kind, "name_i": 0, "out_i": rng.choice([0, 0, OUTS.index("out.new")]),
+                    "accept": True, "answer": "y", "pre": "absent", "process_cwd": True,
+                    "members": pick_members(rng) if kind == "directory" else []})
     # several receives in one process with one shared configuration object
     for i in range(30 if tier == "quick" else 800):
         out.append({"seed": seed * 1000003 + 590000 + i, "series": True, "n": 2 + i % 2, "out": [None, "inbox", "inbox"][i % 3]})
@@ -366,8 +372,25 @@ def _run(spec, world, base):
         offer = {"directory": {"mode": "zipfile/deflated", "dirname": name, "zipsize": len(payload),
                                "numbytes": rng.choice([0, 100, len(payload)]), "numfiles": len(listed)}}
     code = "%d-evil-sender" % rng.randint(1, 900)
-    ra = mkargs(code=code, output_file=out, accept_file=spec["accept"])
-    ra.cwd = cwd
+    if spec.get("process_cwd"):
+        # the command is started by a script with cwd=<inbox> while $PWD still names the script's own directory (only
+        # shells keep the two in step): the configuration object works out its directory by itself
+        old_cwd, old_pwd = os.getcwd(), os.environ.get("PWD")
+        os.chdir(cwd)
+        os.environ["PWD"] = os.path.join(base, "case", "cwd-evil")
+        try:
+            ra = mkargs(code=code, output_file=out, accept_file=spec["accept"])
+        finally:
+            os.chdir(old_cwd)
+            if old_pwd is None:
+                os.environ.pop("PWD", None)
+            else:
+                os.environ["PWD"] = old_pwd
+        if os.path.realpath(ra.cwd) != os.path.realpath(cwd):
+            pass        # (judged below by where the files end up)
+    else:
+        ra = mkargs(code=code, output_file=out, accept_file=spec["accept"])
+        ra.cwd = cwd
     del ANSWERS[:]
     ANSWERS.append(spec["answer"])
     before = snapshot(base)
@@ -461,7 +484,7 @@ def _run(spec, world, base):
     evil = sum(1 for m in listed if m.startswith("..") or m.startswith("/") or "/../" in m or m in ("", ".", "..", "./", "../") or "evil" in m or m in ("link-to-outside", "setuid", "zeroperm", "dirperm-file"))
     return {"violations": viol, "nontrivial": nontrivial,
             "counters": {"writes_observed": len(log), "transfers_completed": int(completed), "refusals": int(refused),
-                         "evil_members": evil, "offer_" + spec["offer"]: 1, "pre_symlink_cases": int(str(pre).startswith("symlink")), "tmp_sibling_cases": tmp_sibling, "sender_hung_up": int(any(e[0] == "hung up after" for e in elog)), "rejected_by_receiver": int(ro != "success"),
+                         "evil_members": evil, "offer_" + spec["offer"]: 1, "pre_symlink_cases": int(str(pre).startswith("symlink")), "tmp_sibling_cases": tmp_sibling, "stale_PWD_cases": int(bool(spec.get("process_cwd"))), "sender_hung_up": int(any(e[0] == "hung up after" for e in elog)), "rejected_by_receiver": int(ro != "success"),
                          "paths_changed": len(changed)},
             "sets": {"receiver_errors": [type(rr.failure.value).__name__ + ":" + str(rr.failure.value)[:50]] if rr.failure else []},
             "sample": {"spec": spec, "offer_name": repr(name), "members": listed, "output_file": out, "pre": pre, "receiver": ro,
